@@ -15,14 +15,18 @@ THEOREMS = ['Otel.Idx.splitString_eq', 'Otel.Idx.hexToBinary_eq'] + ['Otel.C16.'
     'b3_64bit_id_left_padded', 'jaeger_64bit_id_left_padded', 'b3_sampling_decision', 'b3_debug_is_sampled',
     'b3_missing_sampling_unsampled', 'jaeger_missing_flags_unsampled', 'jaeger_sampling_decision', 'b3_two_field_header_presents', 'b3_multi_without_sampled_presents',
     'b3_single_precedes_multi', 'b3_extract_valid_or_unchanged', 'jaeger_extract_valid_or_unchanged',
-    'b3_extract_iff', 'jaeger_extract_iff', 'never_oob', 'extract_valid_or_unchanged')] + ['Otel.Tab.' + t for t in (
+    'b3_extract_iff', 'jaeger_extract_iff', 'never_oob', 'extract_valid_or_unchanged',
+    'invalid_never_injected', 'no_span_never_injected', 'idFromHex_overlong_invalid')] + ['Otel.Tab.' + t for t in (
     'tab_b3FlagsFromHex1', 'tab_b3FlagsFromHexShort', 'tab_b3InjectSingleChar', 'tab_b3InjectMultiSampled', 'tab_jaegerGetTraceFlags', 'tab_jaegerInjectChar', 'tab_hexToInt', 'tab_isValidHex1', 'tab_hexToBinary1', 'tab_hexToBinary2_digits', 'tab_hexToBinaryShort', 'tab_traceIdLower', 'tab_spanIdLower', 'tab_flagsLower', 'tab_flagsIsSampled', 'tab_flagsIsRandom', 'tab_hexToBinary2_cross', 'tab_tpFlagsByte', 'tab_tpInjectFlags')]
 HARNESSES = [Harness('f_c16', ['harness/f_c16.cc'])]
 H = 'f_c16'
 RULE = ('inject / round trip: all 256 flag bytes x random and edge ids x {B3 single, B3 multi, Jaeger}; extract: valid headers '
         '(32/16-digit ids, either case, flags 0/1/d/absent, parent id), single + multi together (precedence), every single-byte '
         'substitution of a valid b3 (51x256) and uber-trace-id (54x256) header, id lengths 0-40 (odd too), missing fields, '
-        'extra separators, insert/delete/duplicate/truncate mutations, NUL and >=0x80 bytes, junk length sweeps. '
+        'extra separators, insert/delete/duplicate/truncate mutations, NUL and >=0x80 bytes, junk length sweeps; extraction into a '
+        'context that already holds a span; contexts without a span / with a non-span value under the span key on the inject side; '
+        'Fields() with a declining callback; the static helpers TraceFlagsFromHex (every byte) and TraceIdFromHex / SpanIdFromHex '
+        '(hex of 0-40 digits) called directly; round-trip results compared through SpanContext / TraceId / SpanId / TraceFlags operator== / !=. '
         'non-trivial = a non-empty header / a valid span context is involved; distinct = distinct case line')
 TRUSTED = ['memory safety of the C++ (no out-of-bounds read) is shown by ASan/UBSan runs on exact-size buffers; the never_oob '
            'theorems are about the index-explicit model']
@@ -216,6 +220,39 @@ def generate(rng, tier):
         sid = mutate(rng, hexcase(rng, rand_id(rng, 8)), 45) if rng.random() < 0.5 else hexcase(rng, rand_id(rng, 8))
         smp = bytes(rng.choice(b'10d\x00 -xD') for _ in range(rng.randrange(0, 3)))
         out.append(Case(f'b3 extract - {hx(tid)} {hx(sid)} {hx(smp)}', H, ('extract', 'b3-multi-mutation')))
+    # ---- contexts without a span ('-') or with a value of another type under the span key ('x'): nothing is injected
+    for op in ops:
+        for tok in ('-', 'x'):
+            out.append(Case(f'{op} {tok} - -', H, ('inject' if 'inject' in op else 'roundtrip', 'no-span-in-context')))
+    # ---- Fields(): the header names, with a callback that declines at each position
+    for op, n in (('b3 fields-single', 1), ('b3 fields-multi', 3), ('jg fields', 1)):
+        for stop in range(0, n + 2):
+            out.append(Case(f'{op} {stop}', H, ('fields',)))
+    # ---- extraction into a context that already holds a span: replaced by a valid remote one, else left as it was
+    for _ in range(40000 if big else 700):
+        b3 = valid_b3(rng) if rng.random() < 0.5 else mutate(rng, valid_b3(rng), 45)
+        out.append(Case(f'b3 extract-over {hx(b3)} - - -', H, ('extract', 'over-existing-span', 'b3-single')))
+        jg = valid_jg(rng) if rng.random() < 0.5 else mutate(rng, valid_jg(rng), 58)
+        out.append(Case(f'jg extract-over {hx(jg)}', H, ('extract', 'over-existing-span', 'jaeger')))
+    for _ in range(20000 if big else 400):
+        tid = hexcase(rng, rand_id(rng, rng.choice([16, 16, 8]))); sid = hexcase(rng, rand_id(rng, 8))
+        if rng.random() < 0.3:
+            tid = mutate(rng, tid, 45)
+        smp = rng.choice([b'1', b'0', b'd', b'', b'true', b'D'])
+        out.append(Case(f'b3 extract-over - {hx(tid)} {hx(sid)} {hx(smp)}', H, ('extract', 'over-existing-span', 'b3-multi')))
+    for eng in ('b3', 'jg'):
+        for fm in (b'', b'-', b':', b'0-0', b'0:0:0:0', b'zz'):
+            out.append(Case(f'b3 extract-over {hx(fm)} - - -' if eng == 'b3' else f'jg extract-over {hx(fm)}', H, ('extract', 'over-existing-span', 'junk')))
+    # ---- the public static helpers called directly: TraceFlagsFromHex on any bytes, TraceIdFromHex / SpanIdFromHex on hex of 0..40 digits
+    for b in range(256):
+        out.append(Case(f'b3 flags {hx(bytes([b]))}', H, ('helpers', 'flags-all-bytes')))
+    for fm in (b'', b'11', b'1d', b'd1', b'01', b'10', b'1\x00', b'\x001', b'dd', b'111', b' 1', b'1 ', b'true'):
+        out.append(Case(f'b3 flags {hx(fm)}', H, ('helpers', 'flags-lengths')))
+    for n in range(0, 41):
+        for _ in range(10 if big else 2):
+            h = rand_hex(rng, n) if rng.random() < 0.8 else b'0' * n
+            out.append(Case(f'b3 tidhex {hx(h)}', H, ('helpers', 'id-from-hex')))
+            out.append(Case(f'b3 sidhex {hx(h)}', H, ('helpers', 'id-from-hex')))
     # ---- junk length sweeps
     for n in range(0, 100):
         for alpha in (b'0', b'-', b':', b'0123456789abcdef-', b'0123456789abcdef:', bytes(range(256))):
@@ -280,12 +317,34 @@ def oracle(case, out):
     t = case.line.split()
     if out.startswith('CRASH'):
         return ('never-crashes-or-reads-out-of-bounds', out)
+    if out.startswith('ERR span-context-equality'):
+        return ('roundtrip-context-equal-by-the-api-iff-same-ids-and-decision', out)
     if out.startswith('ERR'):
         return ('callers-context-unchanged', out)
     if out.startswith('installed-invalid'):
         return ('installed-context-has-nonzero-ids', out)
     op = t[1]
+    if out.startswith('bad-op'):
+        return ('bad-case', case.line[:200])
+    if op in ('fields-single', 'fields-multi', 'fields'):
+        names = {'fields-single': [b'b3'], 'fields-multi': [b'X-B3-TraceId', b'X-B3-SpanId', b'X-B3-Sampled'], 'fields': [b'uber-trace-id']}[op]
+        stop = int(t[2])
+        stopped = 1 <= stop <= len(names)
+        exp = 'f=[' + ','.join(hx(n) for n in (names[:stop] if stopped else names)) + '] ret=' + ('0' if stopped else '1')
+        return None if out == exp else ('fields-are-the-header-names-injected', f'got {out} want {exp}')
+    if op == 'flags':
+        exp = 'fl=01' if arg(t[2]) in (b'1', b'd') else 'fl=00'
+        return None if out == exp else ('sampling-decision', f'TraceFlagsFromHex: got {out} want {exp}')
+    if op in ('tidhex', 'sidhex'):
+        h = arg(t[2]); n = 16 if op == 'tidhex' else 8
+        if not is_hex(h):
+            return ('bad-case', case.line[:200])
+        v = int(h or b'0', 16) if len(h) <= 2 * n else 0          # an over-long string gives the invalid (all-zero) id
+        exp = 'id=' + v.to_bytes(n, 'big').hex()
+        return None if out == exp else ('ids-are-the-left-padded-hex-values', f'{op}: got {out} want {exp}')
     if op in ('inject-single', 'inject-multi', 'rt-single', 'rt-multi', 'inject', 'rt'):
+        if t[2] in ('-', 'x'):
+            return None if out == 'none' else ('invalid-context-never-injected', out)
         tid, sid, fl = bytes.fromhex(t[2]), bytes.fromhex(t[3]), int(t[4], 16)
         valid = tid != bytes(16) and sid != bytes(8)
         if not valid:
@@ -311,7 +370,7 @@ def oracle(case, out):
         if op == 'inject-multi' and out.startswith(exp.rsplit(' ', 1)[0] + ' smp='):
             return ('b3multi-sampled-header-is-the-decision', f'flags {fl:02x}: got {out.rsplit(" ", 1)[1]} want smp={smp.hex()}')
         return ('injected-header-format', f'got {out} want {exp}')
-    if op == 'extract':
+    if op in ('extract', 'extract-over'):
         if t[0] == 'b3':
             exp, documented = spec_b3(arg(t[2]), arg(t[3]), arg(t[4]), arg(t[5]))
         else:
@@ -343,7 +402,7 @@ def nontrivial(case, out):
     t = case.line.split()
     if out.startswith('bad-op'):
         return False
-    if t[1] == 'extract':
+    if t[1] in ('extract', 'extract-over'):
         return any(x != '-' for x in t[2:])
     return True
 
